@@ -107,6 +107,13 @@ class Interp(object):
                 seq = o.fields.get("@seq")
                 if seq is not None and ("#n:" + seq.name) in st.ghost:
                     return [(st, st.ghost["#n:" + seq.name] != 0)]
+                if seq is not None and ("#iter:" + seq.name) not in st.ghost and o.count == 0:
+                    # emptiness test of an abstract sequence before it is iterated: remember the empty case
+                    s_e = st.fork()
+                    s_e.ghost["#n:" + seq.name] = 0
+                    s_e.note("%s: %s is empty" % (self.loc(node) if node is not None else "?", o.label or seq.name))
+                    st.note("%s: %s is not empty" % (self.loc(node) if node is not None else "?", o.label or seq.name))
+                    return [(st, True), (s_e, False)]
                 if o.base == "split" and o.count == 0:
                     s2 = st.fork()
                     st.wobj(v).count = 1
